@@ -524,6 +524,14 @@ func (f *Firewall) inConns(fp firewall.Packet, h *HostInfo, caPool *cert.CAPool,
 		return false
 	}
 
+	// The timer wheel only moves when flows are added and is purged one entry per lookup, so an idle
+	// flow can outlive its timeout in the table by an arbitrary amount. Never honour an expired flow.
+	if !time.Now().Before(c.Expires) {
+		delete(conntrack.Conns, fp)
+		conntrack.Unlock()
+		return false
+	}
+
 	if c.rulesVersion != f.rulesVersion {
 		// This conntrack entry was for an older rule set, validate
 		// it still passes with the current rule set
